@@ -157,6 +157,7 @@ def link_mode(ctx: Ctx, rule: str) -> None:
 def lock_typestate(ctx: Ctx, rule: str) -> None:
     fref = f"{POOL}:image_lock"
     fn = ctx.repo.func(fref)
+    ctx.require_locals(fref, ["lockfile"])
     ctx.touch(fref)
     ok_cm = any("contextmanager" in d for d in fn.decorators)
     ctx.record(rule, "TYPE", fref, "image_lock is a contextlib.contextmanager generator", ok_cm, {}, "" if ok_cm else "image_lock is no longer a context manager")
